@@ -10,6 +10,8 @@ import (
 	"net/http"
 	"net/url"
 	"strings"
+	"sync"
+	"time"
 
 	"github.com/gorilla/websocket"
 
@@ -201,3 +203,73 @@ func (p *simplePool) Get() interface{} {
 	return nil
 }
 func (p *simplePool) Put(v interface{}) { p.items = append(p.items, v) }
+
+// SwitchConn is a net.Conn that forwards to an inner connection which can be
+// replaced: the handshake runs over a scripted transport, the connection under
+// test then continues over another transport (e.g. a GateConn).
+type SwitchConn struct {
+	mu    sync.Mutex
+	inner net.Conn
+}
+
+func (s *SwitchConn) get() net.Conn {
+	s.mu.Lock()
+	defer s.mu.Unlock()
+	return s.inner
+}
+
+// Switch replaces the inner connection.
+func (s *SwitchConn) Switch(c net.Conn) {
+	s.mu.Lock()
+	s.inner = c
+	s.mu.Unlock()
+}
+
+func (s *SwitchConn) Read(p []byte) (int, error)         { return s.get().Read(p) }
+func (s *SwitchConn) Write(p []byte) (int, error)        { return s.get().Write(p) }
+func (s *SwitchConn) Close() error                       { return s.get().Close() }
+func (s *SwitchConn) LocalAddr() net.Addr                { return s.get().LocalAddr() }
+func (s *SwitchConn) RemoteAddr() net.Addr               { return s.get().RemoteAddr() }
+func (s *SwitchConn) SetDeadline(t time.Time) error      { return s.get().SetDeadline(t) }
+func (s *SwitchConn) SetReadDeadline(t time.Time) error  { return s.get().SetReadDeadline(t) }
+func (s *SwitchConn) SetWriteDeadline(t time.Time) error { return s.get().SetWriteDeadline(t) }
+
+// NewConnOver performs the handshake over a scripted transport and then
+// switches the connection to final.
+func NewConnOver(cfg ConnCfg, pool websocket.BufferPool, final net.Conn) (*websocket.Conn, error) {
+	script := xport.NewScriptConn(nil, nil)
+	script.NoLog = true
+	sw := &SwitchConn{inner: script}
+	var c *websocket.Conn
+	var err error
+	if cfg.Server {
+		hr := cfg.HijackR
+		if hr == 0 {
+			hr = 4096
+		}
+		w := &fakeRW{conn: sw, brw: bufio.NewReadWriter(bufio.NewReaderSize(sw, hr), bufio.NewWriterSize(sw, 4096))}
+		u := websocket.Upgrader{ReadBufferSize: cfg.ReadBuf, WriteBufferSize: cfg.WriteBuf, EnableCompression: cfg.Compress, CheckOrigin: allowOrigin}
+		if cfg.Pool {
+			u.WriteBufferPool = pool
+		}
+		c, err = u.Upgrade(w, upgradeRequest(cfg.Compress), nil)
+	} else {
+		r := &responder{compress: cfg.Compress}
+		script.OnWrite = r.onWrite
+		d := websocket.Dialer{
+			NetDialContext:    func(ctx context.Context, network, addr string) (net.Conn, error) { return sw, nil },
+			ReadBufferSize:    cfg.ReadBuf,
+			WriteBufferSize:   cfg.WriteBuf,
+			EnableCompression: cfg.Compress,
+		}
+		if cfg.Pool {
+			d.WriteBufferPool = pool
+		}
+		c, _, err = d.Dial("ws://example.com/", nil)
+	}
+	if err != nil {
+		return nil, fmt.Errorf("harness: handshake failed: %w", err)
+	}
+	sw.Switch(final)
+	return c, nil
+}
